@@ -25,7 +25,7 @@
 From Coq Require Import List NArith Bool.
 From SNT Require Import Base.Outcome Automata.DfaData Automata.Tokenizer.
 From SNT Require Import Render.FaceModel Decoder.SgrRef.
-From SNT Require Import Decoder.EvModel Decoder.Printer Decoder.EvProd Decoder.EvProofs Decoder.EvXterm Decoder.C04Main.
+From SNT Require Import Decoder.EvModel Decoder.Printer Decoder.EvProd Decoder.EvProofs Decoder.EvFamilies2 Decoder.EvXterm Decoder.C04Main.
 From SNT Require Import Gen.ProdDFA Gen.C04Keys.
 Import ListNotations.
 Local Open Scope N_scope.
@@ -92,6 +92,11 @@ Theorem C04_self_delimiting : forall r : report,
   proved_family r = true -> prod_wf r = true -> self_delimiting (print r) = true.
 Proof. exact wf_self_delimiting. Qed.
 
+(* 4e. what DA1 denotes: THE strictly increasing list with the elements of the transmitted one *)
+Theorem C04_da_set : forall l : list N,
+  strictly_increasing (sort_dedup l) = true /\ forall y, In y (sort_dedup l) <-> In y l.
+Proof. exact sort_dedup_spec. Qed.
+
 (* 5. xterm / fixterms modifier convention over the whole table: CSI n ; m ~ and CSI 1 ; m X name
    the key of the unmodified sequence with modifier mask m - 1 *)
 Theorem C04_key_modifiers : forallb mod_entry_ok prod_key_table = true.
@@ -121,13 +126,13 @@ Check C04_concat_partial : forall (rs : list report) (rest : list N),
 (* ---- non-vacuity ---- *)
 Definition ex_reports : list report :=
   [RMouse 85 true 65534 0; RMouse 128 true 0 0; RCursor 0 0; RChar 8364; RLit [27; 91; 49; 53; 59; 54; 126];
-   RDecMode 2004 1; RKittyKey (KF 35) 255; RDevAttrs [1; 2; 62]; RSize 24 80 480 1280;
+   RDecMode 2004 1; RKittyKey (KF 35) 255; RDevAttrs [62; 1; 2; 6; 2]; RSize 24 80 480 1280;
    RPaste [104; 105; 226; 130; 172]; RKeyLevel 5; RLit [27; 91; 49; 59; 53; 82]; RXterm (KF 12) 7 false; RXterm KHome 0 true; RColor (TPalette 255) (RGBA 17 34 255 255) Rgb1 true EndBEL; RColor TBg (RGBA 1 128 254 255) Rgb3 false EndST; RKittyImage 7 (Some 3) (Some [69; 78; 79; 69; 78; 84]); RTermcapOk [([84; 78], [120; 116; 101; 114; 109]); ([99; 111], [50; 53; 54])] true; RTermcapFail [[82; 71; 66]] false; RFaceReport [48; 59; 49; 59; 52; 58; 51; 59; 51; 56; 58; 50; 58; 58; 49; 58; 50; 58; 51]].
 Example C04_nonvacuous :
   forallb (fun r => proved_family r && prod_wf r) ex_reports = true
   /\ map prod_denote ex_reports
      = [EMouse MWheelUp 261 65534 0; ERaw [27; 91; 60; 49; 50; 56; 59; 49; 59; 49; 77]; ECursor 0 0; EKey (KChar 8364) 0; EKey (KF 5) 5; EDecMode 2004 1;
-        EKey (KF 35) 255; EDevAttrs [1; 2; 62]; ESize 24 80 480 1280; EPaste [104; 105; 226; 130; 172];
+        EKey (KF 35) 255; EDevAttrs [1; 2; 6; 62]; ESize 24 80 480 1280; EPaste [104; 105; 226; 130; 172];
         EKeyLevel 5; EKey (KF 3) 4; EKey (KF 12) 7; EKey KHome 0; EColor (TPalette 255) (RGBA 17 34 255 255); EColor TBg (RGBA 1 128 254 255); EKittyImage 7 (Some 3) (Some [69; 78; 79; 69; 78; 84]); ETermcap [([84; 78], Some [120; 116; 101; 114; 109]); ([99; 111], Some [50; 53; 54])]; ETermcap [([82; 71; 66], None)]; EFaceGet (mkFace (Some (RGBA 1 2 3 255)) None 11)]
   /\ length prod_key_table = 367%nat.
 Proof. split; [vm_compute; reflexivity|]. split; vm_compute; reflexivity. Qed.
